@@ -8,10 +8,16 @@ requests (space separated; `-` = empty; sections introduced by single capital le
       -> `ok <hex of the emitted table>` | `trap` | `dropped` | `err` | `unmodelled`
   c17.gvarread <gid> <hex table>      read-fonts Gvar::read + data_for_gid(gid)
       -> `unreadable` | `err` | `none` | `some <hex>`
+  c17.os2 <flags> <os2_info.min> <os2_info.max> U <plan.unicodes>… T <hex OS/2 table>   -> hex | `unmodelled`
+  c17.name <flags> I <plan.name_ids>… L <plan.name_languages>… R <pid eid lang nid len off str>…
+      str: hex of the record's string bytes, `-` empty, `X` out of bounds; `R -` = no records
+      -> `ok <hex>` | `dropped` | `trap` | `unmodelled`
+  c17.post <flags> <hex post table>     -> hex | `unmodelled` (GLYPH_NAMES with a version 2.0 table)
 -/
 import FontVerif.Model.SubsetGvar
+import FontVerif.Model.SubsetMeta
 namespace FontVerif.Drv.C17Gvar
-open FontVerif FontVerif.SubsetGvar
+open FontVerif FontVerif.SubsetGvar FontVerif.SubsetMeta
 
 /-- split `args` into sections at the given marker tokens, in order -/
 def sections (markers : List String) (args : List String) : Option (List (List String)) :=
@@ -42,8 +48,36 @@ def fmtSlot : Slot → String
   | .err => "err"
   | .data b => s!"some {toHex b}"
 
+def parseNameRecs : List String → Option (List NameRec)
+  | [] => some []
+  | p :: e :: l :: n :: len :: off :: st :: rest => do
+    let str ← if st = "X" then some none else (parseHex? st).map some
+    let r : NameRec := { pid := ← parseNat? p, eid := ← parseNat? e, lang := ← parseNat? l, nid := ← parseNat? n,
+                         len := ← parseNat? len, off := ← parseNat? off, str }
+    (parseNameRecs rest).map (r :: ·)
+  | _ => none
+
 def handle (cmd : String) (args : List String) : Option String :=
   match cmd with
+  | "c17.os2" => do
+    let [hd, u, t] ← sections ["U", "T"] args | none
+    let [flags, minCp, maxCp] ← parseNats? hd | none
+    let [tt] := t | none
+    match subsetOs2 flags minCp maxCp (← natList u) (← parseHex? tt) with
+    | .error e => some e
+    | .ok b => some (toHex b)
+  | "c17.name" => do
+    let [hd, i, l, r] ← sections ["I", "L", "R"] args | none
+    let [flags] ← parseNats? hd | none
+    let recs ← if r = ["-"] then some [] else parseNameRecs r
+    match subsetName flags (← natList i) (← natList l) recs with
+    | .error e => some e
+    | .ok b => some s!"ok {toHex b}"
+  | "c17.post" => do
+    let [f, h] := args | none
+    match subsetPostHeader (← parseNat? f) (← parseHex? h) with
+    | none => some "unmodelled"
+    | some b => some (toHex b)
   | "c17.gvar" => do
     let [hd, h, t, m, d] ← sections ["H", "T", "M", "D"] args | none
     let [flags, nout, tableLen, srcGlyphs] ← parseNats? hd | none
